@@ -1,7 +1,57 @@
 import KM.Driver.Core
-/-! Driver for C16 (stub until the property's model is built). -/
+import KM.Model.Conc
+/-! Driver for C16: `pair <fixture tokens|otp> <kindA> <kindB> <schedule e.g. ABAB>` ↦
+`<statusA> <statusB> <digest of the final profile>`. Kinds: `u2f:<idx>:<action>`, `totp:<idx>:<action>`,
+`otp:<ok|bad>`; actions `disable|enable|delete|rename<n>`. -/
 namespace KM.Driver.C16
+open KM.Util KM.Conc
 
-def handler (_mode : String) : Option Handler := none
+def parseAction (s : String) : Option Action :=
+  if s == "disable" then some .disable
+  else if s == "enable" then some .enable
+  else if s == "delete" then some .delete
+  else if s.startsWith "rename" then (s.drop 6).toString.toNat?.map Action.rename
+  else none
+
+def parseKind (s : String) : Option Kind :=
+  match s.splitOn ":" with
+  | ["u2f", i, a] => do let i ← i.toNat?; let a ← parseAction a; pure (.u2f i a)
+  | ["totp", i, a] => do let i ← i.toNat?; let a ← parseAction a; pure (.totp i a)
+  | ["otp", "ok"] => some (.bootstrap true)
+  | ["otp", "bad"] => some (.bootstrap false)
+  | _ => none
+
+def tokensFixture : Profile :=
+  { u2f := fun i => if i = 1 ∨ i = 2 then some { enabled := true, name := 0 } else none,
+    totp := fun i => if i = 1 then some { enabled := true, name := 0 } else none,
+    bootstrap := false }
+
+def otpFixture : Profile := { u2f := fun _ => none, totp := fun _ => none, bootstrap := true }
+
+def tokStr : Option Tok → String
+  | none => "-"
+  | some t => s!"{boolStr t.enabled}/{t.name}"
+
+def digest (p : Profile) : String :=
+  s!"u2f={tokStr (p.u2f 1)},{tokStr (p.u2f 2)},{tokStr (p.u2f 3)} totp={tokStr (p.totp 1)},{tokStr (p.totp 2)} otp={boolStr p.bootstrap}"
+
+def stStr : Option Nat → String
+  | some n => toString n
+  | none => "unfinished"
+
+def model : List String → String
+  | ["pair", fx, ka, kb, sched] =>
+    match parseKind ka, parseKind kb with
+    | some a, some b =>
+      let p := if fx == "otp" then otpFixture else tokensFixture
+      let s : Store := fun _ => p
+      let sch := sched.toList.map (· == 'A')
+      let (s', ta, tb) := KM.Conc.run s (mk 0 a) (mk 0 b) sch
+      s!"{stStr ta.status} {stStr tb.status} {digest (s' 0)}"
+    | _, _ => "bad-op"
+  | _ => "bad-op"
+
+def handler (mode : String) : Option Handler :=
+  if mode == "model" then some (.pure model) else none
 
 end KM.Driver.C16
